@@ -252,7 +252,7 @@ PROPS["C11"] = {
     "level_note": "with forward invariants only executions from the initial states are used; arrays in backward mode are left to the array engines",
     "rule": "a case is (program, domain, parameters, mode); non-trivial = at least one execution was relevant (violated an assertion / reached a good final state) so that preconditions were actually challenged, or the combined analyzer was run; distinct = hash of program + configuration",
     "jobs": {
-        "quick": [{"name": "bwd", "bin": "crabv", "engine": "bwd", "cases": 5000, "params": {"dom": "backward"}}],
+        "quick": [{"name": "bwd", "bin": "crabv", "engine": "bwd", "cases": 12000, "params": {"dom": "backward"}}],
         "thorough": [{"name": "bwd", "bin": "crabv", "engine": "bwd", "cases": 120000, "params": {"dom": "backward"}}],
     },
     "floor": {"quick": 1500, "thorough": 30000},
@@ -381,7 +381,7 @@ PROPS["C17"] = {
     "level_note": "programs for this engine have no havoc and no calls (executions are determined by the initial state and the branch choices) and no division by a variable or by zero (the property's proviso: no removed statement can fail); a search stopped by its node/depth budget is inconclusive (counted)",
     "rule": "a case is (CFG, pipeline); non-trivial = the pipeline removed or merged a block, removed a statement or lowered an assertion and at least one execution was matched; distinct = hash of program + pipeline",
     "jobs": {
-        "quick": [{"name": "xform", "bin": "crabv", "engine": "xform", "cases": 20000}],
+        "quick": [{"name": "xform", "bin": "crabv", "engine": "xform", "cases": 40000}],
         "thorough": [{"name": "xform", "bin": "crabv", "engine": "xform", "cases": 600000}],
     },
     "floor": {"quick": 6000, "thorough": 200000},
